@@ -27,12 +27,13 @@ use std::{
     fs::{self, File, OpenOptions},
     io::{Read, Write},
     path::{Path, PathBuf},
-    sync::{
-        Arc,
-        atomic::{AtomicU64, AtomicUsize, Ordering},
-    },
+    sync::{Arc, atomic::Ordering},
     time::{Duration, Instant, SystemTime},
 };
+#[cfg(feature = "verif-hooks")]
+use crate::verif_hooks::sync::{AtomicU64, AtomicUsize};
+#[cfg(not(feature = "verif-hooks"))]
+use std::sync::atomic::{AtomicU64, AtomicUsize};
 #[cfg(feature = "verif-hooks")]
 use crate::verif_hooks::sync::RwLock;
 #[cfg(not(feature = "verif-hooks"))]
